@@ -9,6 +9,7 @@ import (
 	"fmt"
 	"io"
 	"os"
+	"reflect"
 	"strconv"
 )
 
@@ -211,3 +212,17 @@ func vCalls(name string) int      { return vCallLog[name] }
 // vGoCount: how many goroutines were launched with the given string among their arguments
 // (symbolic executor only; natively launching the tasks is not possible in a replay).
 func vGoCount(arg string) int { return 0 }
+
+// vFloatText / vIntText: the text of a harness input as it would be written in
+// an input file or on a command line. Under the executor the result is a token
+// that strconv.ParseFloat/ParseInt/Atoi map back to the same input.
+func vFloatText(name string, idx ...int) string {
+	return strconv.FormatFloat(vFloat(name, idx...), 'g', -1, 64)
+}
+
+func vIntText(name string, idx ...int) string { return strconv.Itoa(vInt(name, idx...)) }
+
+// vFieldName: name of the i-th field of the struct p points to.
+func vFieldName(p interface{}, i int) string {
+	return reflect.TypeOf(p).Elem().Field(i).Name
+}
